@@ -17,7 +17,9 @@ LEAN_MODULES = ["Clikit.Props.C04"]
 REQUIRED_THEOREMS = ["Clikit.Props.C04." + n for n in (
     "clampStatus_range", "status_range", "handler_once", "run_contained", "exception_reported", "status_zero_iff",
     "escape_only_by_render", "attempt_status_le", "run_escapes_iff", "run_contained_exact", "exception_reported_exact",
-    "attempt_calls", "conclude_calls")]
+    "attempt_calls", "conclude_calls",
+    # end to end, on the composed model of the default application (Model/App.lean, tied by c09.app_run)
+    "run_shape", "app_runs_selected_handler", "app_at_most_one_handler", "app_status_range")]
 TECHNIQUE = ("Lean 4 theorems on a model of ConsoleApplication.run/Command.handle whose status normalisation is regenerated "
              "from Command.handle on every run + exhaustive outcome x listener x verbosity table against the real run()")
 LEVEL_TEXT = ("Proved in Lean for ALL handler results, exceptions and pre-handle listener lists: the status is 0 iff the value "
@@ -29,7 +31,15 @@ LEVEL_TEXT = ("Proved in Lean for ALL handler results, exceptions and pre-handle
               "nothing escapes EXACTLY when the report of the one exception reaching the except clause can be rendered "
               "(run_escapes_iff; run_contained_exact / exception_reported_exact need the renderer to work on that exception only). "
               "The model is tied to the code by the complete outcome x listener x verbosity x resolution table through the "
-              "real ConsoleApplication.run.")
+              "real ConsoleApplication.run. END TO END: on the composed model App.runApp of ConsoleApplication.run for the default "
+              "configuration (create_io, the help and version listeners, DefaultResolver + args parser, HelpTextHandler, then this "
+              "run model; Model/App.lean) it is proved for ALL command trees, token lists, conversion tables and handler "
+              "behaviours that, without a help switch and a version request, the handler of the command the resolver selects is "
+              "called exactly once with exactly the parsed args, no other handler runs and the status is the run model's status "
+              "of its outcome (app_runs_selected_handler); at most one handler runs in any run, the one resolve_command "
+              "selected (app_at_most_one_handler); every status is <= 255, run() does not return exactly when an exception "
+              "escaped, which only a failing report renderer causes (app_status_range, run_shape). The composed model is compared "
+              "with the real run of the default application on every generated case of C09 (entry c09.app_run).")
 LEVEL_NOTE = ("Trusted: Lean kernel + standard axioms; the hand-written run model; tools/genparts/c04.py; harness (abstraction "
               "of Python values to truthiness/int()). Not modelled: BaseExceptions other than KeyboardInterrupt (SystemExit "
               "raised by a handler propagates by design), OS signal delivery, the trace renderer itself (C20).")
@@ -43,6 +53,10 @@ TRUSTED_BASE = [
     "tools/genparts/c04.py: translation of the last statement of Command.handle (the clamp) and check of the guard before it",
     "lean/Clikit/Model/Run.lean: hand-written model of run/handle/_do_handle (modelled, not verified; tied by the correspondence)",
     "harness/props/c04.py, harness/c04_handlers.py: outcome table, listeners, abstraction of Python values",
+    "lean/Clikit/Model/App.lean: hand-written composition of the switches, resolver, parser, help-target and run models in the "
+    "order of ConsoleApplication.run / DefaultApplicationConfig (modelled, not verified; tied by the differential runs of "
+    "harness/props/c09.py through c09.app_run: status, selected command and args, handler invocations, help/version kind and "
+    "target, I/O configuration)",
 ]
 ASSUMPTIONS = [
     "rendering the error report does not fail (C20's subject) - needed only for the exception that reaches the except clause "
@@ -50,6 +64,9 @@ ASSUMPTIONS = [
     "case: the model runs with a renderer that never fails against the REAL renderer, so a failure shows up as an escaped "
     "exception = a model/implementation disagreement and an oracle violation",
     "KeyboardInterrupt needs no report; BaseExceptions other than KeyboardInterrupt are outside the quantifier",
+    "the app_* theorems take case conditions on their own inputs only (no help switch, `resolve` selects (path, args), the "
+    "version option is not set, the path is not [help]); in the composed model rendering a help page or the version line "
+    "succeeds (C13 help_total) and create_io does not raise",
 ]
 BATCH = 1000
 PARALLEL = True
